@@ -46,6 +46,9 @@ func genC14(r *Rng, tier string) *Plan {
 				Pad: Pick(r, []string{"fixed", "stripped", "extra"})}
 			if fam[e.ID] == "rsa" {
 				fp.P8 = Pick(r, []string{"null", "noparams"})
+				if r.Chance(1, 3) {
+					fp.KeyAlg = Pick(r, []string{"RSA-1536", "RSA-1280"}) // a size outside gopki's own list
+				}
 			} else if fp.Pub && r.Chance(1, 2) {
 				// the optional public key inside ECPrivateKey as another tool may write it
 				// (openssl -conv_form compressed|hybrid)
